@@ -60,8 +60,20 @@ class Gen:
                 out.append(("ext", url, self.words(1, 2) if rnd.random() < 0.7 else None))
                 out.append(self.word())
             elif allow_ref and self.with_refs and depth == 0:
-                out.append(("ref", self.links_only() if (self.with_links and rnd.random() < 0.15)
-                            else self.inline(1, False, True, 0, 3)))
+                body = self.links_only() if (self.with_links and rnd.random() < 0.15) else self.inline(1, False, True, 0, 3)
+                if rnd.random() < 0.3:
+                    self.nrefnames = getattr(self, "nrefnames", 0) + 1
+                    name = "n%d" % self.nrefnames
+                    use_first = rnd.random() < 0.4
+                    if use_first:
+                        out.append(("refuse", name))
+                        out.append(self.word())
+                    out.append(("ref", body, name))
+                    if not use_first and rnd.random() < 0.6:
+                        out.append(self.word())
+                        out.append(("refuse", name))
+                else:
+                    out.append(("ref", body))
                 out.append(self.word())
             else:
                 out.append(self.word())
@@ -242,12 +254,17 @@ class Ser:
                 _, url, label = n
                 out.append(url if label is None else "[%s %s]" % (url, self.inline(label)))
             elif t == "ref":
-                out.append("<ref>%s</ref>" % self.inline(n[1]))
+                if len(n) > 2:
+                    out.append("<ref name=\"%s\">%s</ref>" % (n[2], self.inline(n[1])))
+                else:
+                    out.append("<ref>%s</ref>" % self.inline(n[1]))
+            elif t == "refuse":
+                out.append("<ref name=\"%s\" />" % n[1])
         # a bare URL swallows following non-space characters; keep everything space separated,
         # except that a reference attaches to the preceding word
         s = ""
         for piece in out:
-            if piece.startswith("<ref>") and s:
+            if piece.startswith("<ref") and s:
                 s += piece
             else:
                 s += (" " if s else "") + piece
